@@ -153,6 +153,8 @@ void harness(void)
         H4V_ASSERT(apifail, "C16.S1.reported.fclose: the final fclose failed but Hclose reported success");
     else if (memio_any_failed && memio_failed_phase == ph_open && WL >= 10 && (memio_failed_code == 4 || memio_failed_code == 5) && memio_failed_pos != 0 && memio_failed_pos != 2)
         H4V_ASSERT(apifail, "C16.S1.reported.open-version: reading the library-version element during Hopen failed but every call reported success");
+    else if (memio_any_failed && memio_failed_phase == ph_open && WL == 11 && memio_failed_code == 1)
+        H4V_ASSERT(apifail, "C16.S1.reported.open-recreate: opening the existing file for update failed, Hopen silently created a new empty file over it and every call reported success");
     else if (memio_any_failed && memio_failed_phase == ph_vdetach)
         H4V_ASSERT(apifail, "C16.S1.reported.vdetach: a write failed inside Vdetach but every call reported success");
     else if (memio_any_failed && memio_failed_phase == ph_vsdetach)
